@@ -118,6 +118,37 @@ func (x *Exec) specAssume(fr *Frame, st *State, c Clause) {
 	})
 }
 
+// evalLenient evaluates a postcondition; if it mentions a local variable of the function that does not exist on this path
+// (the path returned before the variable was defined) the clause is skipped for this path and the fact is noted
+func (x *Exec) evalLenient(fr *Frame, env *SpecEnv, c Clause) (f *F, skipped bool) {
+	defer func() {
+		if e := recover(); e != nil {
+			if se, ok := e.(specErr); ok && strings.Contains(se.msg, "unknown identifier") {
+				name := se.msg[strings.Index(se.msg, "\"")+1:]
+				name = name[:strings.Index(name, "\"")]
+				if x.isLocalOf(fr.fn, name) {
+					x.note("postcondition at " + c.Where + " is not checked on paths that return before local '" + name + "' is defined")
+					skipped = true
+					return
+				}
+			}
+			panic(e)
+		}
+	}()
+	return env.evalBool(c.Expr).formula(), false
+}
+
+func (x *Exec) isLocalOf(fn *ssa.Function, name string) bool {
+	for _, b := range fn.Blocks {
+		for _, in := range b.Instrs {
+			if d, ok := in.(*ssa.DebugRef); ok && d.Object() != nil && d.Object().Name() == name {
+				return true
+			}
+		}
+	}
+	return false
+}
+
 // applyUses assumes the lemma instances declared with `use` for this program point; a use that mentions a local variable
 // which does not exist on this path is skipped
 func (x *Exec) applyUses(fr *Frame, st *State, env *SpecEnv, at string) {
@@ -335,7 +366,9 @@ func (x *Exec) applyContract(fr *Frame, st *State, in ssa.Instruction, con *Cont
 		x.bindResults(names, sig, res)
 		env2 := &SpecEnv{x: x, fr: fr, st: st, old: snap, names: names, pkg: con.Pkg, depth: 1}
 		for _, en := range con.Ensures {
-			x.assumeF(st, env2.evalBool(en.Expr).formula())
+			if f, ok := env2.evalCallerSide(en); ok {
+				x.assumeF(st, f)
+			}
 		}
 		// lock effects declared as ensures held(...)/!held(...) are applied by assumption on symbolic held flags: not modelled;
 		// contracts state lock requirements in requires only.
@@ -479,7 +512,10 @@ func (x *Exec) atReturn(fr *Frame, st *State, rs []Val) {
 		env := x.specEnvAt(fr, st, fr.pre, names)
 		x.applyUses(fr, st, env, "return")
 		for i, e := range con.Ensures {
-			f := env.evalBool(e.Expr).formula()
+			f, skipped := x.evalLenient(fr, env, e)
+			if skipped {
+				continue
+			}
 			x.proveF(fr, st, fmt.Sprintf("ensures[%d]", i), "ensures", f, ret)
 			// later postconditions may rely on earlier ones (each is proved under the same path condition)
 			x.assumeF(st, f)
@@ -786,6 +822,7 @@ func (x *Exec) buildQuery(o *Oblig) *Query {
 	q := &Query{}
 	o.hasQ = false
 	ext := x.extTerms(o.Idx)
+	x.curKeys = o.Keys
 	if os.Getenv("GOVC_DEBUG_IDX") != "" && strings.Contains(o.Name, os.Getenv("GOVC_DEBUG_IDX")) {
 		for _, t := range ext {
 			fmt.Fprintf(os.Stderr, "IDX %s  @ %s\n", truncate(t.T, 80), truncate(t.Seq, 60))
